@@ -82,6 +82,7 @@ static void check04(const std::vector<WOp> &ops, Src &s, uint8_t fill) {
     for (size_t c : caps) {
         WResult r = run_writer(ops, pl, c, fill);
         st.count("pairs");
+        if (!st.quiet) st.evaluations++;  // one evaluation per (sequence, capacity) pair
         if (r.counter != size) VH_FAIL("C04/counter", "capacity %zu: counter %zu, exact encoded size %zu; %s", c, r.counter, size, ctx().c_str());
         int want = size > c ? BINSON_ERROR_RANGE : BINSON_ERROR_NONE;
         if (r.error != want) VH_FAIL(fmt("C04/error/%s-expected-%s", err_name(r.error), err_name(want)), "capacity %zu size %zu: error %s; %s", c, size, err_name(r.error), ctx().c_str());
